@@ -6,19 +6,6 @@ set_option linter.unusedSimpArgs false
 
 namespace LS.GenTie
 
-/-- outcome of a method returning `Result<char, ReserveError>`; the character as its bytes -/
-def resOfChr : Step (Rs Chr) (Rs Chr) → Res Bytes
-  | .next (.ok c) s | .done (.ok c) s => .ok c.b s.hp s.self
-  | .next .err s | .done .err s => .err s.hp s.self
-  | .pidx s => .pidx s.hp s.self
-  | .ub u => .ub u
-
-def resOfOptChr : Step (Rs (Option Chr)) (Rs (Option Chr)) → Res (Option Bytes)
-  | .next (.ok c) s | .done (.ok c) s => .ok (c.map (·.b)) s.hp s.self
-  | .next .err s | .done .err s => .err s.hp s.self
-  | .pidx s => .pidx s.hp s.self
-  | .ub u => .ub u
-
 theorem pop_tie (s : St) (hd : DataOk s.hp) (hr : RawOk s.self) :
     resOfOptChr (GenRepr.Repr.pop s) = pop s.st s.hp s.self := by
   rcases s with ⟨rf, st, hp, r⟩
